@@ -48,9 +48,11 @@ OPEN_STATEMENTS = [
     'rotate_qubit_by_pauli_sound is proved for exact (c, s) with c^2 + s^2 = 1 in the exact regime of the four sums '
     '(ExactAdd); not proved: that numpy.cos / numpy.sin deliver such a pair (floats: Spec oracle at 1e-9) and the case '
     'where a partial sum is pruned by the 1e-8 tolerance',
-    'freeze_orbitals_sound on Fock space (sum over terms, several frozen orbitals, occupied-orbital sign): proved is the '
-    'scan of a single term (deleted operators, swap count = true transpositions - n_ops, occupancy parity, hence correct '
-    'sign on surviving terms); the full statement is checked by the exact embedded-matrix-element oracle',
+    'freeze_orbitals_sound (whole operators, several distinct frozen orbitals, prune=False) is proved at the live '
+    'tolerance against Spec.applyOp .fermion under the per-run exact-regime flag (every `tmp_operator +=` of every pass '
+    'exact; counted as exact-regime(freeze):True/False); not proved: prune=True (the order-preserving relabelling of '
+    'prune_unused_indices preserves the matrix elements: exact embedded-matrix-element oracle only), repeated frozen '
+    'indices, and runs whose flag is False',
     'scbk_sector: no theorem besides remove_indices_order_preserving; end-to-end sector spectra checked numerically '
     '(n = 4; 6 in thorough), edit_hamiltonian_for_spin / remove_indices by correspondence',
 ]
@@ -751,9 +753,11 @@ def stream_freeze(ctx):
             reqs.append({'op': 'c16.freeze', 'A': jA, 'occupied': occ, 'unoccupied': unocc, 'prune': prune})
     ans = iter(ctx.driver.run(reqs))
     for n, op, occ, unocc, jA in items:
-        m0, m1 = next(ans), next(ans)
+        x0, x1 = next(ans), next(ans)
+        m0, m1 = x0['op'], x1['op']
         case = {'f': 'freeze_orbitals', 'A': jA, 'occupied': occ, 'unoccupied': unocc}
         st.case(case)
+        st.count('exact-regime(freeze):%s' % x0['exact'])
         st.count('occ=%d,unocc=%d' % (len(occ), len(unocc)))
         before = canon_op_json(enc_op('fermion', op.terms))
         try:
@@ -1124,8 +1128,8 @@ def stream_bands(ctx):
                 rb = of.transforms.freeze_orbitals(relabel_f(of, A, sh), [q + OFF for q in occ], [q + OFF for q in unocc],
                                                    prune=False)
                 jr, jb = enc_op('fermion', r.terms), enc_op('fermion', rb.terms)
-                if canon_op_json(jr) != canon_op_json(m):
-                    st.disagree('freeze_orbitals (sizes)', case, jr, m)
+                if canon_op_json(jr) != canon_op_json(m['op']):
+                    st.disagree('freeze_orbitals (sizes)', case, jr, m['op'])
                 if canon_op_json(jb) != jrelabel(jr, sh):
                     st.violate('shifting all mode indices by %d does not commute with freeze_orbitals' % OFF, case,
                                {'shifted_result': jb, 'result': jr})
